@@ -675,7 +675,8 @@ class Gen:
                 'repp:-:%d:%d' % (it, it), 'repp:%d:-:%d' % (c, it), 'repa:%d:-1:%d' % (c, it), 'repa:%d:%d:%d' % (c, n, it), 'repa:%d:0:-' % c, 'repa:-:0:%d' % it,
                 'repo:%d:-:%d' % (c, it), 'repo:%d:%s:-' % (c, k), 'repocs:%d:-:%d' % (c, it),
                 'size:-', 'get:-:0', 'get:%d:-1' % c, 'get:%d:%d' % (c, n), 'geto:%d:-' % c, 'geto:-:%s' % k, 'getocs:%d:-' % c, 'has:-:%s' % k, 'has:%d:-' % c, 'gets:-', 'getn:-', 'each:-',
-                'setn:-:%s' % dt(2.0), 'seti:-:5', 'sets:-:x61', 'sets:%d:-' % it, 'setb:-:1', 'str:-', 'raw:-', 'ints:-1:1,2', 'ints:2:-', 'doubles:-1:=', 'floats:1:-', 'strs:-1:=', 'strs:1:-', 'dup:-:1', 'oref:-', 'sref:-']
+                'setn:-:%s' % dt(2.0), 'seti:-:5', 'sets:-:x61', 'sets:%d:-' % it, 'setb:-:1', 'str:-', 'raw:-', 'ints:-1:1,2', 'ints:2:-', 'doubles:-1:=', 'floats:1:-', 'strs:-1:=', 'strs:1:-',
+                'floats:-1:%s,%s' % (dt(1.5), dt(2.5)), 'doubles:-1:%s,%s' % (dt(1.5), dt(2.5)), 'strs:-1:x61,x62', 'floats:-3:%s' % dt(0.5), 'doubles:-2:%s' % dt(0.5), 'ints:-3:7', 'dup:-:1', 'oref:-', 'sref:-']
         # detaching an item through a container that is not its parent: refused when the item is a detached root
         if s.items[it] is not s.root_of(cn): opts += ['detp:%d:%d' % (c, it)] * 3
         # a replacement by key that finds nothing still renames the replacement (documented side effect of the call order)
